@@ -325,4 +325,112 @@ theorem parse_single_word_error (wl : WordList) (hlen : wl.words.length ≤ 2 ^ 
           rw [hbad]
           rfl
 
+/-! ## Share.__init__ and the soundness of Share.parse -/
+
+/-- `Share(...)` succeeds exactly on in-range arguments, and then stores them with the big-endian value -/
+theorem share_new_some (sbl id e gi gt gc mi mt v : Nat) (sh : Share) :
+    Share.new sbl id e gi gt gc mi mt v = some sh ↔
+      (gi ≤ 15 ∧ 1 ≤ gt ∧ gt ≤ gc ∧ gc ≤ 16 ∧ mi ≤ 15 ∧ 1 ≤ mt ∧ mt ≤ 16 ∧ v < 256 ^ (sbl / 8) ∧
+        sh = ⟨sbl, id, e, gi, gt, gc, mi, mt, v, natToBE' (sbl / 8) v⟩) := by
+  unfold Share.new
+  by_cases h1 : gi > 15
+  · rw [if_pos h1]; constructor
+    · intro h; cases h
+    · intro h; omega
+  rw [if_neg h1]
+  by_cases h2 : gt < 1 ∨ gt > gc
+  · rw [if_pos h2]; constructor
+    · intro h; cases h
+    · intro h; omega
+  rw [if_neg h2]
+  by_cases h3 : gc < 1 ∨ gc > 16
+  · rw [if_pos h3]; constructor
+    · intro h; cases h
+    · intro h; omega
+  rw [if_neg h3]
+  by_cases h4 : mi > 15
+  · rw [if_pos h4]; constructor
+    · intro h; cases h
+    · intro h; omega
+  rw [if_neg h4]
+  by_cases h5 : mt < 1 ∨ mt > 16
+  · rw [if_pos h5]; constructor
+    · intro h; cases h
+    · intro h; omega
+  rw [if_neg h5]
+  by_cases h6 : v < 256 ^ (sbl / 8)
+  · rw [natToBE_some' h6]
+    constructor
+    · intro h
+      simp only [Option.some.injEq] at h
+      exact ⟨by omega, by omega, by omega, by omega, by omega, by omega, by omega, h6, h.symm⟩
+    · intro h; rw [h.2.2.2.2.2.2.2.2]
+  · have : natToBE v (sbl / 8) = none := by simp [natToBE, h6]
+    rw [this]
+    constructor
+    · intro h; cases h
+    · intro h; exact absurd h.2.2.2.2.2.2.2.1 h6
+
+/-- whatever `Share.parse` returns has in-range fields (so it can be re-encoded and parses back to itself) -/
+theorem ofIndices_ok (idx : List Nat) (sh : Share) (hlt : ∀ i ∈ idx, i < 1024)
+    (h : Share.ofIndices idx = some sh) : ShareOK sh := by
+  unfold Share.ofIndices at h
+  by_cases hv : rs1024Verify Gen.parseCustomization idx = true
+  swap
+  · simp [hv] at h
+  rw [hv] at h
+  simp only [Bool.not_true, Bool.false_eq_true, if_false] at h
+  by_cases hl : idx.length < 7
+  · rw [if_pos hl] at h; cases h
+  rw [if_neg hl] at h
+  match idx, hlt, hl, h with
+  | i0 :: i1 :: i2 :: i3 :: rest, hlt, hl, h =>
+    simp only at h
+    have h0 : i0 < 1024 := hlt i0 (by simp)
+    have h1 : i1 < 1024 := hlt i1 (by simp)
+    have h2 : i2 < 1024 := hlt i2 (by simp)
+    have h3 : i3 < 1024 := hlt i3 (by simp)
+    split at h
+    · cases h
+    · rename_i hshift
+      split at h
+      · cases h
+      · rename_i hmin
+        rw [share_new_some] at h
+        obtain ⟨g1, g2, g3, g4, g5, g6, g7, g8, rfl⟩ := h
+        have hid : (i0 <<< 5 ||| i1 >>> 5) < 2 ^ 15 := by
+          rw [Nat.shiftRight_eq_div_pow, shl_or _ _ 5 (by show i1 / 32 < 32; omega)]
+          show i0 * 32 + i1 / 32 < 32768; omega
+        have hexp : i1 &&& 31 < 32 := by
+          rw [show i1 &&& 31 = i1 % 32 from Nat.and_two_pow_sub_one_eq_mod i1 5]; omega
+        simp only [bne_iff_ne, ne_eq, not_not] at hshift
+        have hval : wordsValue (rest.take (rest.length - 3))
+            < 2 ^ ((((i0 :: i1 :: i2 :: i3 :: rest).length - 7) * 10 / 16) * 16) := by
+          rw [Nat.shiftRight_eq_div_pow] at hshift
+          exact (Nat.div_eq_zero_iff_lt (Nat.pow_pos (by decide))).mp hshift
+        exact ⟨hid, hexp, Nat.lt_succ_of_le g1, g2, g3, g4, Nat.lt_succ_of_le g5, g6, g7,
+          Nat.mul_mod_left _ _, by simpa [Gen.shareMinBits] using hmin, hval, rfl⟩
+  | [], _, hl, _ => simp at hl
+  | [_], _, hl, _ => simp at hl
+  | [_, _], _, hl, _ => simp at hl
+  | [_, _, _], _, hl, _ => simp at hl
+
+theorem lookupAll_lt_of_table (wl : WordList) (tok : TableOK 1024 wl) (ws : List PyStr) (idx : List Nat)
+    (h : lookupAll wl ws = some idx) : ∀ i ∈ idx, i < 1024 := by
+  intro i hi
+  have := lookupAll_lt wl ws idx h i hi
+  rwa [tok.hlen] at this
+
+/-- a parsed share re-encodes to a mnemonic that parses to the same share (`parse ∘ mnemonic ∘ parse = parse`) -/
+theorem parse_then_mnemonic (wl : WordList) (tok : TableOK 1024 wl) (m : PyStr) (sh : Share)
+    (h : Share.parse wl m = some sh) :
+    ShareOK sh ∧ ∃ m', Share.mnemonic wl sh = some m' ∧ Share.parse wl m' = some sh := by
+  unfold Share.parse at h
+  cases hidx : lookupAll wl (pySplit m) with
+  | none => rw [hidx] at h; cases h
+  | some idx =>
+    rw [hidx] at h
+    have ok := ofIndices_ok idx sh (lookupAll_lt_of_table wl tok _ idx hidx) h
+    exact ⟨ok, parse_mnemonic wl tok sh ok⟩
+
 end Buidl.Shamir
